@@ -225,6 +225,7 @@ CORPUS_SONAR = [
 
 
 def run(ctx: core.Ctx):
+    run_tools(ctx)
     rng = ctx.rng
     n = 120 if ctx.quick() else 1200
     if getattr(ctx, "deep", False):
@@ -265,7 +266,86 @@ def run(ctx: core.Ctx):
                            "expected": "every open issue and hotspot with a textRange / every location of every result of every run"})
 
 
+# ---------------------------------------------------------------------------------------------- detect_sarif_tools
+def gen_tool_run(rng, kind):
+    """kind: semgrep | codeql | other | no_name | no_driver | no_tool | name_int"""
+    if kind == "no_tool":
+        return {"results": []}
+    if kind == "no_driver":
+        return {"tool": {"extensions": []}, "results": []}
+    if kind == "no_name":
+        return {"tool": {"driver": {"version": "1"}}, "results": []}
+    if kind == "name_int":
+        return {"tool": {"driver": {"name": 7}}, "results": []}
+    name = {"semgrep": rng.choice(["Semgrep OSS", "semgrep", "SEMGREP pro"]), "codeql": rng.choice(["CodeQL", "GitHub CodeQL"]),
+            "other": rng.choice(["Snyk", "bandit", "codeql-lowercase"])}[kind]
+    return {"tool": {"driver": {"name": name}}, "results": []}
+
+
+def run_detect(ctx, docs, idx):
+    from codemodder.sarifs import DuplicateToolError, detect_sarif_tools
+    paths = []
+    for j, d in enumerate(docs):
+        p = ctx.scratch / f"tools_{idx}_{j}.sarif"
+        p.write_text(json.dumps(d))
+        paths.append(p)
+    try:
+        m = detect_sarif_tools(paths)
+        pairs = []
+        for tool_name, files in m.items():
+            code = {"semgrep": 0, "codeql": 1}.get(tool_name)
+            if code is None:
+                continue
+            for f in files:
+                pairs.append((code, paths.index(type(paths[0])(f))))
+        return 0, pairs
+    except DuplicateToolError:
+        return 1, []
+    except Exception:
+        return 2, []
+
+
+def run_tools(ctx):
+    rng = ctx.rng
+    n = 80 if ctx.quick() else 800
+    cases, meta = [], []
+    fixed = [[{"runs": [gen_tool_run(rng, "no_name"), gen_tool_run(rng, "semgrep")]}],         # non-inspectable run first
+             [{"runs": [gen_tool_run(rng, "semgrep"), gen_tool_run(rng, "no_name")]}],
+             [{"runs": [gen_tool_run(rng, "other"), gen_tool_run(rng, "codeql")]}],
+             [{"runs": [gen_tool_run(rng, "no_driver"), gen_tool_run(rng, "codeql")]}, {"runs": [gen_tool_run(rng, "semgrep")]}],
+             [{"runs": [gen_tool_run(rng, "semgrep")]}, {"runs": [gen_tool_run(rng, "semgrep")]}],   # duplicate tool
+             [{"runs": []}], [{"version": "2.1.0"}]]
+    for i in range(n + len(fixed)):
+        if i < len(fixed):
+            docs = fixed[i]
+        else:
+            docs = []
+            for _ in range(rng.choice([1, 1, 2, 3])):
+                kinds = [rng.choice(["semgrep", "codeql", "other", "other", "no_name", "no_driver", "no_tool", "name_int"]) for _ in range(rng.randint(0, 4))]
+                docs.append({"version": "2.1.0", "runs": [gen_tool_run(rng, k) for k in kinds]})
+        kind, pairs = run_detect(ctx, docs, i)
+        ctx.count(f"detect_sarif_tools:outcome:{['ok', 'duplicate', 'crash'][kind]}")
+        cases.append(cpair(clist([cpair(core.cN(j), cjson(d)) for j, d in enumerate(docs)], "N * json"), core.cN(kind),
+                           clist([cpair(core.cN(a), core.cN(b)) for a, b in pairs], "N * N")))
+        meta.append((docs, kind, pairs))
+        ctx.case({"detect_sarif_tools": docs, "outcome": kind, "attribution": pairs}, nontrivial_key=("tools", json.dumps(docs, sort_keys=True)) if pairs else None,
+                 sample=bool(pairs) and len(docs) > 1)
+    bad = core.eval_bad_indices(ctx, "c12_tools", IMPORTS, "tools_case", cases, ["tools_model_ok", "tools_spec_ok"], chunk=150)
+    for i in bad["tools_model_ok"]:
+        docs, kind, pairs = meta[i]
+        ctx.mismatch("detect_sarif_tools vs Model.SarifTools", f"attribution differs from the model: outcome {kind}, {pairs}", {"sarif_docs": docs, "observed": [kind, pairs]})
+    for i in bad["tools_spec_ok"]:
+        docs, kind, pairs = meta[i]
+        ctx.violation("kf_sarif_attribution", f"a SARIF file holding a recognisable run is not attributed to its tool (or one without is): {pairs}",
+                      {"sarif_docs": docs, "observed": [kind, pairs],
+                       "expected": "file attributed to tool T iff one of its runs is recognised by T's detector; other runs are skipped one by one"})
+
+
 def replay(ctx, body):
+    if "sarif_docs" in body:
+        print("observed now:", run_detect(ctx, body["sarif_docs"], 0), "| recorded:", body.get("observed"))
+        print("expected    :", body.get("expected"))
+        return 0
     obs = run_reader(ctx, body["reader"], body["doc"], 0)
     print("observed now:", obs)
     print("recorded    :", body.get("observed"))
